@@ -125,7 +125,7 @@ def run_purity(case, drv):
                 start.add_nodes_from(pn)
                 start.add_edges_from([(pn[u], pn[v]) for u, v in case["edges"]])
                 extra = (sorted(map(repr, start.nodes())), sorted(map(repr, start.edges())))
-                HillClimbSearch(df).estimate(scoring_method="k2score", start_dag=start, max_iter=3, show_progress=False)
+                HillClimbSearch(df).estimate(scoring_method="k2", start_dag=start, max_iter=5, show_progress=False)
                 if (sorted(map(repr, start.nodes())), sorted(map(repr, start.edges()))) != extra:
                     return fail("HillClimbSearch.estimate modified the caller's start_dag", call=call)
             elif call == "bif":
